@@ -113,10 +113,10 @@ Qed.
 
 Lemma step_peers_silent tbl mtu pkts :
   Forall (fun p => route tbl p = None) pkts ->
-  forall ps i, step_peers tbl mtu (TunBatch pkts) i ps = (ps, []).
+  forall up ps i, step_peers tbl mtu up (TunBatch pkts) i ps = (ps, []).
 Proof.
-  intros H. induction ps as [|p t IH]; intros i; cbn [step_peers]; [reflexivity|].
-  cbn [peer_step].
+  intros H up. induction ps as [|p t IH]; intros i; cbn [step_peers]; [reflexivity|].
+  cbn [peer_step]. destruct up; cbn [negb]; [|rewrite IH; reflexivity].
   rewrite filter_none.
   - rewrite IH. reflexivity.
   - eapply Forall_impl; [|exact H]. cbv beta. intros a Ha. rewrite Ha. reflexivity.
@@ -222,13 +222,16 @@ Proof.
       rewrite H. intros Hs. exists s'. auto.
 Qed.
 
-Lemma peer_step_data tbl mtu i p ev p' os q ep rcv ctr pk m :
-  peer_step tbl mtu i p ev = (p', os) -> In (OData q ep rcv ctr pk m) os ->
+Lemma peer_step_data tbl mtu up i p ev p' os q ep rcv ctr pk m :
+  peer_step tbl mtu up i p ev = (p', os) -> In (OData q ep rcv ctr pk m) os ->
   q = i /\ m = mtu /\
   exists s, p_sess p' = Some s /\ ss_ridx s = rcv /\ ss_expired s = false /\
             p_ep p' = Some ep /\ ctr < ss_ctr s.
 Proof.
-  destruct ev as [pkts|mm|j ridx e|j ridx e|j e|j|j]; cbn [peer_step].
+  destruct ev as [pkts|mm|j ridx e|j ridx e|j e|j|j| |]; cbn [peer_step].
+  1-7: destruct up; cbn [negb]; [|intros H; inversion H; subst; intros []].
+  8: intros H; inversion H; subst; intros [].
+  8: destruct up; intros H; inversion H; subst; intros [].
   - match goal with |- context [filter ?f pkts] => destruct (filter f pkts) as [|m0 mt] end.
     + intros H; inversion H; subst. intros [].
     + intros H Hin. destruct (send_staged_data _ _ _ _ _ _ _ _ _ _ _ H Hin) as (A & B & _ & C). auto.
@@ -247,12 +250,16 @@ Proof.
   - destruct (j =? i); intros H; inversion H; subst; intros [].
 Qed.
 
-Lemma peer_step_sess tbl mtu i p ev p' os s' :
-  peer_step tbl mtu i p ev = (p', os) -> p_sess p' = Some s' ->
+Lemma peer_step_sess tbl mtu up i p ev p' os s' :
+  peer_step tbl mtu up i p ev = (p', os) -> p_sess p' = Some s' ->
   (exists s, p_sess p = Some s /\ ss_ridx s = ss_ridx s') \/
   (exists ep, ev = RefHs i (ss_ridx s') ep \/ ev = AnswerHs i (ss_ridx s') ep).
 Proof.
-  destruct ev as [pkts|mm|j ridx e|j ridx e|j e|j|j]; cbn [peer_step].
+  destruct ev as [pkts|mm|j ridx e|j ridx e|j e|j|j| |]; cbn [peer_step].
+  1-7: destruct up; cbn [negb];
+         [|intros H; inversion H; subst; intros Hs; left; exists s'; auto].
+  8: intros H; inversion H; subst; cbn [p_sess]; discriminate.
+  8: destruct up; intros H; inversion H; subst; cbn [p_sess]; intros Hs; left; exists s'; auto.
   - match goal with |- context [filter ?f pkts] => destruct (filter f pkts) as [|m0 mt] end.
     + intros H; inversion H; subst. intros Hs. left. exists s'. auto.
     + intros H Hs. left. exact (send_staged_sess _ _ _ _ _ _ H Hs).
@@ -283,16 +290,16 @@ Qed.
 
 (* ------------------------------------------------------- the list of peers *)
 
-Lemma step_peers_nth tbl mtu ev : forall ps i ps' os,
-  step_peers tbl mtu ev i ps = (ps', os) ->
+Lemma step_peers_nth tbl mtu up ev : forall ps i ps' os,
+  step_peers tbl mtu up ev i ps = (ps', os) ->
   forall k p', nth_error ps' k = Some p' ->
   exists p o, nth_error ps k = Some p /\
-              peer_step tbl mtu (i + N.of_nat k) p ev = (p', o) /\ incl o os.
+              peer_step tbl mtu up (i + N.of_nat k) p ev = (p', o) /\ incl o os.
 Proof.
   induction ps as [|p t IH]; intros i ps' os; cbn [step_peers].
   - intros H; inversion H; subst. intros [|k] p'; discriminate.
-  - destruct (peer_step tbl mtu i p ev) as [p1 o1] eqn:Hp.
-    destruct (step_peers tbl mtu ev (i + 1) t) as [t1 os1] eqn:Ht.
+  - destruct (peer_step tbl mtu up i p ev) as [p1 o1] eqn:Hp.
+    destruct (step_peers tbl mtu up ev (i + 1) t) as [t1 os1] eqn:Ht.
     intros H; inversion H; subst; clear H. intros [|k] p'; cbn [nth_error].
     + intros H; inversion H; subst. exists p, o1. split; [reflexivity|].
       split; [|apply incl_appl, incl_refl].
@@ -302,15 +309,15 @@ Proof.
       replace (i + N.of_nat (S k)) with (i + 1 + N.of_nat k) by lia. exact Hs.
 Qed.
 
-Lemma step_peers_out tbl mtu ev : forall ps i ps' os x,
-  step_peers tbl mtu ev i ps = (ps', os) -> In x os ->
+Lemma step_peers_out tbl mtu up ev : forall ps i ps' os x,
+  step_peers tbl mtu up ev i ps = (ps', os) -> In x os ->
   exists k p p' o, nth_error ps k = Some p /\ nth_error ps' k = Some p' /\
-                   peer_step tbl mtu (i + N.of_nat k) p ev = (p', o) /\ In x o.
+                   peer_step tbl mtu up (i + N.of_nat k) p ev = (p', o) /\ In x o.
 Proof.
   induction ps as [|p t IH]; intros i ps' os x; cbn [step_peers].
   - intros H; inversion H; subst. intros [].
-  - destruct (peer_step tbl mtu i p ev) as [p1 o1] eqn:Hp.
-    destruct (step_peers tbl mtu ev (i + 1) t) as [t1 os1] eqn:Ht.
+  - destruct (peer_step tbl mtu up i p ev) as [p1 o1] eqn:Hp.
+    destruct (step_peers tbl mtu up ev (i + 1) t) as [t1 os1] eqn:Ht.
     intros H; inversion H; subst; clear H. intros Hin. apply in_app_or in Hin.
     destruct Hin as [Hin|Hin].
     + exists 0%nat, p, p1, o1. cbn [nth_error]. repeat split; auto.
@@ -323,10 +330,10 @@ Qed.
 (* ----------------------------------------------------------- the whole step *)
 
 Lemma step_tbl st ev : s_tbl (fst (step st ev)) = s_tbl st.
-Proof. unfold step. destruct (step_peers _ _ _ _ _). reflexivity. Qed.
+Proof. unfold step. destruct (step_peers _ _ _ _ _ _). reflexivity. Qed.
 
 Lemma step_mtu st ev : s_mtu (fst (step st ev)) = mtu_after (s_mtu st) ev.
-Proof. unfold step. destruct (step_peers _ _ _ _ _). reflexivity. Qed.
+Proof. unfold step. destruct (step_peers _ _ _ _ _ _). reflexivity. Qed.
 
 Lemma mtu_after_nonneg mtu ev : (0 <= mtu)%Z -> (0 <= mtu_after mtu ev)%Z.
 Proof.
@@ -344,10 +351,10 @@ Theorem transport_fields : forall st ev st' os p ep rcv ctr pk mtu,
                ctr < ss_ctr s /\ mtu = s_mtu st'.
 Proof.
   intros st ev st' os p ep rcv ctr pk mtu. unfold step.
-  destruct (step_peers (s_tbl st) (mtu_after (s_mtu st) ev) ev 0 (s_peers st)) as [ps o] eqn:Hsp.
+  destruct (step_peers (s_tbl st) (mtu_after (s_mtu st) ev) (s_up st) ev 0 (s_peers st)) as [ps o] eqn:Hsp.
   intros H; inversion H; subst; clear H. intros Hin. cbn [s_peers s_mtu].
-  destruct (step_peers_out _ _ _ _ _ _ _ _ Hsp Hin) as (k & p0 & p0' & o & A & B & C & D).
-  destruct (peer_step_data _ _ _ _ _ _ _ _ _ _ _ _ _ C D) as (E & F & s & G).
+  destruct (step_peers_out _ _ _ _ _ _ _ _ _ Hsp Hin) as (k & p0 & p0' & o & A & B & C & D).
+  destruct (peer_step_data _ _ _ _ _ _ _ _ _ _ _ _ _ _ C D) as (E & F & s & G).
   exists p0', s. subst p. replace (N.to_nat (0 + N.of_nat k)) with k by lia.
   split; [exact B|]. destruct G as (G1 & G2 & G3 & G4 & G5). repeat split; auto.
 Qed.
@@ -399,11 +406,11 @@ Definition ann_inv (pre : list event) (st : state) : Prop :=
 Lemma step_ann_inv pre st ev : ann_inv pre st -> ann_inv (pre ++ [ev]) (fst (step st ev)).
 Proof.
   intros Hinv k pr s. unfold step.
-  destruct (step_peers (s_tbl st) (mtu_after (s_mtu st) ev) ev 0 (s_peers st)) as [ps o] eqn:Hsp.
+  destruct (step_peers (s_tbl st) (mtu_after (s_mtu st) ev) (s_up st) ev 0 (s_peers st)) as [ps o] eqn:Hsp.
   cbn [fst s_peers]. intros Hn Hs.
-  destruct (step_peers_nth _ _ _ _ _ _ _ Hsp _ _ Hn) as (p0 & o0 & A & B & _).
+  destruct (step_peers_nth _ _ _ _ _ _ _ _ Hsp _ _ Hn) as (p0 & o0 & A & B & _).
   rewrite N.add_0_l in B.
-  destruct (peer_step_sess _ _ _ _ _ _ _ _ B Hs) as [(s0 & Hs0 & Hr)|(e & He)].
+  destruct (peer_step_sess _ _ _ _ _ _ _ _ _ B Hs) as [(s0 & Hs0 & Hr)|(e & He)].
   - rewrite <- Hr. apply ann_app_l. eapply Hinv; eassumption.
   - exists e. destruct He as [He|He]; [left|right]; apply in_or_app; right; left; exact He.
 Qed.
@@ -537,12 +544,26 @@ Lemma triv_count i l x :
   (cnt (flat_map data_of []) x + cnt (tag i l) x <= cnt (tag i l) x + cnt (tag i []) x)%nat.
 Proof. change (cnt (tag i []) x) with 0%nat. change (cnt (flat_map data_of []) x) with 0%nat. lia. Qed.
 
-Lemma peer_step_count tbl mtu i p ev p' os x :
-  peer_step tbl mtu i p ev = (p', os) ->
+Lemma triv_count' i l m x :
+  (cnt (flat_map data_of []) x + cnt (tag i l) x <= cnt (tag i l) x + m)%nat.
+Proof. change (cnt (flat_map data_of []) x) with 0%nat. lia. Qed.
+
+Lemma flush_count i m x :
+  (cnt (flat_map data_of []) x + cnt (tag i (concat [])) x <= m)%nat.
+Proof.
+  change (cnt (flat_map data_of []) x) with 0%nat.
+  change (cnt (tag i (concat [])) x) with 0%nat. lia.
+Qed.
+
+Lemma peer_step_count tbl mtu up i p ev p' os x :
+  peer_step tbl mtu up i p ev = (p', os) ->
   (cnt (flat_map data_of os) x + cnt (tag i (concat (p_staged p'))) x
    <= cnt (tag i (concat (p_staged p))) x + cnt (tag i (mine tbl i ev)) x)%nat.
 Proof.
-  destruct ev as [pkts|mm|j ridx e|j ridx e|j e|j|j]; cbn [peer_step mine].
+  destruct ev as [pkts|mm|j ridx e|j ridx e|j e|j|j| |]; cbn [peer_step mine].
+  1-7: destruct up; cbn [negb]; [|intros H; inversion H; subst; apply triv_count'].
+  8: intros H; inversion H; subst; cbn [p_staged]; apply flush_count.
+  8: destruct up; intros H; inversion H; subst; cbn [p_staged]; apply triv_count'.
   - match goal with |- context [filter ?f pkts] => destruct (filter f pkts) as [|m0 mt] end.
     + intros H; inversion H; subst. cbn. lia.
     + intros H. apply (send_staged_count _ _ _ _ _ x) in H. cbn [p_staged] in H.
@@ -571,7 +592,7 @@ Lemma mine_routed tbl i ev x :
   (cnt (tag i (mine tbl i ev)) x <= if N.eqb (fst x) i then cnt (routed_ev tbl ev) x else 0)%nat.
 Proof.
   destruct (N.eqb_spec (fst x) i) as [E|E]; [|rewrite tag_other by exact E; lia].
-  destruct ev as [pkts| | | | | |]; cbn [mine routed_ev tag flat_map count_occ]; try lia.
+  destruct ev as [pkts| | | | | | | |]; cbn [mine routed_ev tag flat_map count_occ]; try lia.
   induction pkts as [|a t IH]; cbn [filter flat_map]; [cbn; lia|].
   destruct (route tbl a) as [j|]; [|exact IH].
   destruct (N.eqb_spec j i) as [->|Hj].
@@ -581,17 +602,17 @@ Proof.
   - cbn [app]. etransitivity; [exact IH|]. apply cnt_cons_le.
 Qed.
 
-Lemma step_peers_count tbl mtu ev x : forall ps i ps' os,
-  step_peers tbl mtu ev i ps = (ps', os) ->
+Lemma step_peers_count tbl mtu up ev x : forall ps i ps' os,
+  step_peers tbl mtu up ev i ps = (ps', os) ->
   (cnt (flat_map data_of os) x + cnt (stg i ps') x
    <= cnt (stg i ps) x + if N.leb i (fst x) then cnt (routed_ev tbl ev) x else 0)%nat.
 Proof.
   induction ps as [|p t IH]; intros i ps' os; cbn [step_peers].
   - intros H; inversion H; subst. cbn. lia.
-  - destruct (peer_step tbl mtu i p ev) as [p1 o1] eqn:Hp.
-    destruct (step_peers tbl mtu ev (i + 1) t) as [t1 os1] eqn:Ht.
+  - destruct (peer_step tbl mtu up i p ev) as [p1 o1] eqn:Hp.
+    destruct (step_peers tbl mtu up ev (i + 1) t) as [t1 os1] eqn:Ht.
     intros H; inversion H; subst; clear H.
-    apply (peer_step_count _ _ _ _ _ _ _ x) in Hp. apply IH in Ht.
+    apply (peer_step_count _ _ _ _ _ _ _ _ x) in Hp. apply IH in Ht.
     pose proof (mine_routed tbl i ev x) as Hm.
     cbn [stg]. rewrite flat_map_app, !count_occ_app.
     destruct (N.eqb_spec (fst x) i), (N.leb_spec i (fst x)), (N.leb_spec (i + 1) (fst x)); lia.
@@ -602,8 +623,8 @@ Lemma step_count st ev x :
    <= cnt (stg 0 (s_peers st)) x + cnt (routed_ev (s_tbl st) ev) x)%nat.
 Proof.
   unfold step.
-  destruct (step_peers (s_tbl st) (mtu_after (s_mtu st) ev) ev 0 (s_peers st)) as [ps o] eqn:Hsp.
-  cbn [fst snd s_peers]. apply (step_peers_count _ _ _ x) in Hsp.
+  destruct (step_peers (s_tbl st) (mtu_after (s_mtu st) ev) (s_up st) ev 0 (s_peers st)) as [ps o] eqn:Hsp.
+  cbn [fst snd s_peers]. apply (step_peers_count _ _ _ _ x) in Hsp.
   destruct (N.leb_spec 0 (fst x)); lia.
 Qed.
 
@@ -648,11 +669,70 @@ Proof.
   pose proof (each_tun_packet_at_most_once st evs (p, b :: l) Hc) as Hle.
   assert (Hr : In (p, b :: l) (routed (s_tbl st) evs)) by (apply (count_occ_In pkt_eq_dec); lia).
   unfold routed in Hr. apply in_flat_map in Hr. destruct Hr as (ev & Hev & Hr).
-  destruct ev as [pkts| | | | | |]; cbn [routed_ev] in Hr; try (destruct Hr; fail).
+  destruct ev as [pkts| | | | | | | |]; cbn [routed_ev] in Hr; try (destruct Hr; fail).
   apply in_flat_map in Hr. destruct Hr as (y & Hy & Hr).
   destruct (route (s_tbl st) y) as [j|] eqn:Hroute; [|destruct Hr].
   destruct Hr as [Hr|[]]. inversion Hr; subst j y; clear Hr.
   split; [exact Hroute|]. split; [exists pkts; split; assumption|].
   unfold route in Hroute. destruct (classify (b :: l)) as [f|]; [|discriminate].
   exists f. split; [reflexivity|]. rewrite <- Hroute. apply lookup_is_lpm.
+Qed.
+
+(* ------------------------------------------------------- device down and up *)
+
+Lemma step_peers_down_batch tbl mtu pkts : forall ps i,
+  step_peers tbl mtu false (TunBatch pkts) i ps = (ps, []).
+Proof.
+  induction ps as [|p t IH]; intros i; cbn [step_peers]; [reflexivity|].
+  cbn [peer_step negb]. rewrite IH. reflexivity.
+Qed.
+
+Theorem down_drops : forall st pkts, s_up st = false -> step st (TunBatch pkts) = (st, []).
+Proof.
+  intros [tbl mtu up ps] pkts H. cbn [s_up] in H. subst up. unfold step.
+  cbn [s_tbl s_mtu s_up s_peers mtu_after]. rewrite step_peers_down_batch. reflexivity.
+Qed.
+
+Lemma step_peers_Down tbl mtu up : forall ps i ps' os,
+  step_peers tbl mtu up Down i ps = (ps', os) ->
+  Forall (fun p => p_sess p = None /\ p_staged p = [] /\ p_init_out p = false) ps' /\ os = [].
+Proof.
+  induction ps as [|p t IH]; intros i ps' os; cbn [step_peers].
+  - intros H; inversion H; subst. split; [constructor|reflexivity].
+  - cbn [peer_step].
+    destruct (step_peers tbl mtu up Down (i + 1) t) as [t1 os1] eqn:Ht.
+    intros H; inversion H; subst; clear H.
+    destruct (IH _ _ _ Ht) as [HF ->]. split; [|reflexivity].
+    constructor; [|exact HF]. cbn. repeat split; reflexivity.
+Qed.
+
+Theorem down_clears : forall st,
+  Forall (fun p => p_sess p = None /\ p_staged p = [] /\ p_init_out p = false)
+         (s_peers (fst (step st Down))) /\
+  snd (step st Down) = [] /\ s_up (fst (step st Down)) = false.
+Proof.
+  intros st. unfold step.
+  destruct (step_peers (s_tbl st) (mtu_after (s_mtu st) Down) (s_up st) Down 0 (s_peers st))
+    as [ps o] eqn:Hsp.
+  cbn [fst snd s_peers s_up]. destruct (step_peers_Down _ _ _ _ _ _ _ Hsp) as [HF ->].
+  repeat split. exact HF.
+Qed.
+
+Lemma step_peers_Up tbl mtu up : forall ps i ps' os,
+  step_peers tbl mtu up Up i ps = (ps', os) -> os = [].
+Proof.
+  induction ps as [|p t IH]; intros i ps' os; cbn [step_peers].
+  - intros H; inversion H; subst. reflexivity.
+  - destruct (peer_step tbl mtu up i p Up) as [p1 o1] eqn:Hp.
+    destruct (step_peers tbl mtu up Up (i + 1) t) as [t1 os1] eqn:Ht.
+    intros H; inversion H; subst; clear H. rewrite (IH _ _ _ Ht).
+    cbn [peer_step] in Hp. destruct up; inversion Hp; subst; reflexivity.
+Qed.
+
+Theorem up_silent : forall st, snd (step st Up) = [] /\ s_up (fst (step st Up)) = true.
+Proof.
+  intros st. unfold step.
+  destruct (step_peers (s_tbl st) (mtu_after (s_mtu st) Up) (s_up st) Up 0 (s_peers st))
+    as [ps o] eqn:Hsp.
+  cbn [fst snd s_up]. split; [|reflexivity]. exact (step_peers_Up _ _ _ _ _ _ _ Hsp).
 Qed.
